@@ -578,3 +578,11 @@ def gen(rng, tier):
         yield gen_reform(rng)
     for _ in range(45 if q else 600):
         yield gen_export(rng)
+    # pointing exactly at a celestial pole (the FITS default pole longitude is not 180 there), reference pixel on the pole
+    for k in range(4 if q else 40):
+        c = gen_export(rng)
+        half = c["half"]
+        c["bbox"] = [[0.0, 2 * half], [0.0, 2 * half]]
+        c.update(centre=[half, half], lat=90.0 if k % 4 != 3 else -90.0, crpix=None if k % 2 == 0 else [half + 1, half + 1], embed=None, swap=False,
+                 proj="TAN" if k % 4 == 0 else c["proj"])
+        yield c
